@@ -562,21 +562,28 @@ Proof.
   cbn [fold_right lookup_size]. rewrite (lookup_size_flat cb Hc), (lookup_size_flat dflt Hd). lia.
 Qed.
 
-(* under coherence the first placeholder with a name is any placeholder with that name *)
-Lemma find_ph_in phs p n b :
-  coherent phs -> In (NMsgPlaceholder p n b) phs -> find_ph phs n = Some b.
+(* a name that some placeholder carries is found, at a placeholder carrying it *)
+Lemma find_ph_some phs n :
+  (exists p b, In (NMsgPlaceholder p n b) phs) ->
+  exists p' b', find_ph phs n = Some b' /\ In (NMsgPlaceholder p' n b') phs.
 Proof.
-  intros Hco Hin. induction phs as [|x r IH]; [destruct Hin|].
-  assert (coherent r) as Hco'.
-  { intros p1 p2 n' b1 b2 H1 H2. apply (Hco p1 p2 n' b1 b2); right; assumption. }
+  intros [p [b Hin]]. induction phs as [|x r IH]; [destruct Hin|].
   destruct Hin as [->|Hin].
-  - cbn [find_ph]. rewrite beq_refl. reflexivity.
-  - specialize (IH Hco' Hin).
-    destruct x; cbn [find_ph]; try exact IH.
-    match goal with |- (if bstr_eqb ?m n then Some ?c else _) = _ => destruct (bstr_eqb m n) eqn:E; [|exact IH];
-      apply beq_eq in E; subst m; f_equal;
-      match goal with H : coherent (NMsgPlaceholder ?q _ _ :: _) |- _ => apply (H q p n c b); [left; reflexivity | right; exact Hin] end
-    end.
+  - cbn [find_ph]. rewrite beq_refl. exists p, b. split; [reflexivity | left; reflexivity].
+  - destruct (IH Hin) as [p' [b' [Hf Hi]]].
+    destruct x; cbn [find_ph]; try (exists p', b'; split; [exact Hf | right; exact Hi]).
+    match goal with |- exists _ _, (if bstr_eqb ?m n then Some ?c else _) = _ /\ _ => destruct (bstr_eqb m n) eqn:E end.
+    + apply beq_eq in E. subst. eexists _, _. split; [reflexivity | left; reflexivity].
+    + exists p', b'. split; [exact Hf | right; exact Hi].
+Qed.
+
+(* under coherence what is found is the code of any placeholder with that name *)
+Lemma find_ph_same phs p n b :
+  coherent phs -> In (NMsgPlaceholder p n b) phs ->
+  exists p' b', find_ph phs n = Some b' /\ In (NMsgPlaceholder p' n b') phs /\ pstrip b' = pstrip b.
+Proof.
+  intros Hco Hin. destruct (find_ph_some phs n (ex_intro _ p (ex_intro _ b Hin))) as [p' [b' [Hf Hi]]].
+  exists p', b'. split; [exact Hf|]. split; [exact Hi | apply (Hco p' p n b' b Hi Hin)].
 Qed.
 
 Lemma find_plural_head p vn pv cases dflt r :
@@ -593,20 +600,32 @@ Variable plural_index : Z -> nat.
 Variable bd : bundle.
 Variable w : node -> M value.
 
-(* every name of the translation is found, and what is found is the node the
-   translation means *)
+(* every name of the translation is found, at the first placeholder carrying it *)
 Lemma eval_parts_items body phs tr :
   (forall name, placeholder body name = Ok (find_ph phs name)) ->
-  coherent phs -> items_from phs tr ->
-  eval_parts w body (map item_part tr) = run_items w tr.
+  items_named phs tr ->
+  eval_parts w body (map item_part tr) = run_items w (map (resolve phs) tr).
 Proof.
-  intros Hlook Hco. induction tr as [|[t|p n b] r IH]; intros Hfrom.
+  intros Hlook. induction tr as [|[t|p n b] r IH]; intros Hfrom.
   - reflexivity.
-  - cbn [map item_part eval_parts run_items]. rewrite IH; [reflexivity|].
-    intros p n b Hin. apply Hfrom. right. exact Hin.
-  - cbn [map item_part eval_parts run_items]. rewrite Hlook.
-    rewrite (find_ph_in phs p n b Hco) by (apply Hfrom; left; reflexivity).
-    rewrite IH; [reflexivity|]. intros p' n' b' Hin. apply Hfrom. right. exact Hin.
+  - cbn [map item_part resolve eval_parts run_items]. rewrite IH; [reflexivity|].
+    intros p n b Hin. apply (Hfrom p n b). right. exact Hin.
+  - cbn [map item_part resolve eval_parts]. rewrite Hlook.
+    destruct (find_ph_some phs n (Hfrom p n b (or_introl eq_refl))) as [p' [b' [Hf _]]].
+    rewrite Hf. cbn [run_items]. rewrite IH; [reflexivity|].
+    intros p0 n0 b0 Hin. apply (Hfrom p0 n0 b0). right. exact Hin.
+Qed.
+
+Lemma items_from_named phs tr : items_from phs tr -> items_named phs tr.
+Proof. intros H p n b Hin. exists p, b. apply H, Hin. Qed.
+
+(* ... and under coherence that is the code the translation means *)
+Lemma resolve_same phs tr : coherent phs -> items_from phs tr -> same_items (map (resolve phs) tr) tr.
+Proof.
+  intros Hco. unfold same_items. induction tr as [|[t|p n b] r IH]; intros Hfrom; cbn [map resolve]; [constructor| |].
+  - constructor; [reflexivity|]. apply IH. intros p n b Hin. apply Hfrom. right. exact Hin.
+  - destruct (find_ph_same phs p n b Hco (Hfrom p n b (or_introl eq_refl))) as [p' [b' [Hf [_ Hs]]]]. rewrite Hf.
+    constructor; [split; [reflexivity | exact Hs]|]. apply IH. intros p0 n0 b0 Hin. apply Hfrom. right. exact Hin.
 Qed.
 
 (* ---- a message that is not in the bundle ---- *)
@@ -628,24 +647,25 @@ Proof. destruct n; intros H; try reflexivity. contradiction. Qed.
 (* ---- a translated message without plural ---- *)
 
 Theorem translated_flat mp id body tr s :
-  forallb flat_node body = true -> coherent body -> items_from body tr ->
+  forallb flat_node body = true -> items_named body tr ->
   bundle_message bd id = Some (new_message [] [s]) ->
   parts s = map item_part tr ->
-  eval_msg plural_index bd w mp id body = run_items w tr.
+  eval_msg plural_index bd w mp id body = run_items w (map (resolve body) tr).
 Proof.
-  intros Hf Hco Hfrom Hb Hs. unfold eval_msg. rewrite Hb. cbn [new_message eval_cmsg]. rewrite Hs.
-  apply (eval_parts_items body body tr); [|exact Hco | exact Hfrom].
+  intros Hf Hfrom Hb Hs. unfold eval_msg. rewrite Hb. cbn [new_message eval_cmsg]. rewrite Hs.
+  apply (eval_parts_items body body tr); [|exact Hfrom].
   intros name. apply placeholder_flat, Hf.
 Qed.
 
-(* the translator writes the items; Parts reads them back *)
+(* the translator writes the items; Parts reads them back; every slot is filled by
+   rendering the first placeholder of the message that carries the slot's name *)
 Theorem translation_places_values mp id body tr :
-  forallb flat_node body = true -> coherent body -> items_from body tr ->
+  forallb flat_node body = true -> items_named body tr ->
   parts_clean (map item_part tr) ->
   bundle_message bd id = Some (new_message [] [msgstr_of tr]) ->
-  eval_msg plural_index bd w mp id body = run_items w tr.
+  eval_msg plural_index bd w mp id body = run_items w (map (resolve body) tr).
 Proof.
-  intros Hf Hco Hfrom Hclean Hb. apply (translated_flat mp id body tr (msgstr_of tr)); try assumption.
+  intros Hf Hfrom Hclean Hb. apply (translated_flat mp id body tr (msgstr_of tr)); try assumption.
   unfold msgstr_of. apply parts_print_clean, Hclean.
 Qed.
 
@@ -692,15 +712,16 @@ Qed.
    the translation puts them; the placeholders of both case bodies may be used *)
 Theorem plural_form_places_values p vn pv pc cv cb dflt strs k tr :
   forallb flat_node cb = true -> forallb flat_node dflt = true ->
-  coherent (dflt ++ cb) -> items_from (dflt ++ cb) tr ->
+  items_named (dflt ++ cb) tr ->
   nth_error strs k = Some (msgstr_of tr) -> parts_clean (map item_part tr) ->
-  eval_form [NMsgPlural p vn pv [NMsgPluralCase pc cv cb] dflt] strs k = run_items w tr.
+  eval_form [NMsgPlural p vn pv [NMsgPluralCase pc cv cb] dflt] strs k = run_items w (map (resolve (dflt ++ cb)) tr).
 Proof.
-  intros Hc Hd Hco Hfrom Hk Hclean. unfold eval_form. rewrite Hk.
+  intros Hc Hd Hfrom Hk Hclean. unfold eval_form. rewrite Hk.
   unfold msgstr_of. rewrite (parts_print_clean _ Hclean).
-  apply (eval_parts_items _ (dflt ++ cb) tr); [|exact Hco | exact Hfrom].
+  apply (eval_parts_items _ (dflt ++ cb) tr); [|exact Hfrom].
   intros name. apply placeholder_plural; assumption.
 Qed.
+
 (* ---- the identity translation: msgstr = msgid ---- *)
 
 Lemma map_item_part_merge l raw : map item_part (merge_items_go l raw) = merge_go (map item_part l) raw.
@@ -744,30 +765,31 @@ Proof. intros p n b H. apply source_items_from. apply (merge_items_from _ [] _ _
 (* with msgstr = msgid, a message that Validate accepts renders its own text
    segments and placeholders in source order *)
 Theorem identity_flat mp id body :
-  reads_back body = true -> coherent body ->
+  reads_back body = true ->
   bundle_message bd id = Some (new_message [] [write_body body]) ->
-  eval_msg plural_index bd w mp id body = run_items w (identity_items body).
+  eval_msg plural_index bd w mp id body = run_items w (map (resolve body) (identity_items body)).
 Proof.
-  intros Hrb Hco Hb. destruct (reads_back_sound body Hrb) as [Hf Hp].
-  apply (translated_flat mp id body (identity_items body) (write_body body) Hf Hco (identity_items_from body) Hb).
+  intros Hrb Hb. destruct (reads_back_sound body Hrb) as [Hf Hp].
+  apply (translated_flat mp id body (identity_items body) (write_body body) Hf (items_from_named _ _ (identity_items_from body)) Hb).
   rewrite Hp. unfold identity_items, merge_items, merge_texts. rewrite map_item_part_merge, body_parts_items. reflexivity.
 Qed.
 
 Theorem identity_form p vn pv pc cv cb dflt strs k src :
-  reads_back cb = true -> reads_back dflt = true -> coherent (dflt ++ cb) ->
+  reads_back cb = true -> reads_back dflt = true ->
   (src = cb \/ src = dflt) ->
   nth_error strs k = Some (write_body src) ->
-  eval_form [NMsgPlural p vn pv [NMsgPluralCase pc cv cb] dflt] strs k = run_items w (identity_items src).
+  eval_form [NMsgPlural p vn pv [NMsgPluralCase pc cv cb] dflt] strs k =
+  run_items w (map (resolve (dflt ++ cb)) (identity_items src)).
 Proof.
-  intros Hc Hd Hco Hsrc Hk.
+  intros Hc Hd Hsrc Hk.
   destruct (reads_back_sound cb Hc) as [Hfc Hpc]. destruct (reads_back_sound dflt Hd) as [Hfd Hpd].
   unfold eval_form. rewrite Hk.
   assert (parts (write_body src) = map item_part (identity_items src)) as Hp.
   { unfold identity_items, merge_items. rewrite map_item_part_merge, <- body_parts_items.
     destruct Hsrc as [-> | ->]; assumption. }
-  rewrite Hp. apply (eval_parts_items _ (dflt ++ cb)); [|exact Hco|].
+  rewrite Hp. apply (eval_parts_items _ (dflt ++ cb)).
   - intros name. apply placeholder_plural; assumption.
-  - intros q n b Hin. apply identity_items_from in Hin. apply in_or_app.
+  - intros q n b Hin. apply identity_items_from in Hin. exists q, b. apply in_or_app.
     destruct Hsrc as [-> | ->]; [right | left]; exact Hin.
 Qed.
 
@@ -776,17 +798,29 @@ Qed.
 Definition ph_items (tr : list titem) : list titem :=
   filter (fun i => match i with TPh _ _ _ => true | TText _ => false end) tr.
 
-Theorem reorder_catalogue mp id body tr :
-  forallb flat_node body = true -> coherent body ->
-  Permutation (ph_items tr) (ph_items (source_items body)) ->
-  parts_clean (map item_part tr) ->
-  bundle_message bd id = Some (new_message [] [msgstr_of tr]) ->
-  eval_msg plural_index bd w mp id body = run_items w tr.
+Lemma perm_items_from body tr :
+  Permutation (ph_items tr) (ph_items (source_items body)) -> items_from body tr.
 Proof.
-  intros Hf Hco Hperm Hclean Hb. apply translation_places_values; try assumption.
-  intros p n b Hin. apply source_items_from.
+  intros Hperm p n b Hin. apply source_items_from.
   assert (In (TPh p n b) (ph_items tr)) as H1 by (unfold ph_items; apply filter_In; split; [exact Hin | reflexivity]).
   apply (Permutation_in _ Hperm) in H1. unfold ph_items in H1. apply filter_In in H1 as [H1 _]. exact H1.
 Qed.
+
+Theorem reorder_catalogue mp id body tr :
+  forallb flat_node body = true ->
+  Permutation (ph_items tr) (ph_items (source_items body)) ->
+  parts_clean (map item_part tr) ->
+  bundle_message bd id = Some (new_message [] [msgstr_of tr]) ->
+  eval_msg plural_index bd w mp id body = run_items w (map (resolve body) tr).
+Proof.
+  intros Hf Hperm Hclean Hb. apply translation_places_values; try assumption.
+  apply items_from_named, perm_items_from, Hperm.
+Qed.
+
+(* ... and under coherence every slot holds the code the translation names *)
+Theorem reorder_same body tr :
+  coherent body -> Permutation (ph_items tr) (ph_items (source_items body)) ->
+  same_items (map (resolve body) tr) tr.
+Proof. intros Hco Hperm. apply resolve_same; [exact Hco | apply perm_items_from, Hperm]. Qed.
 
 End Render.
